@@ -192,3 +192,52 @@ func TestC15(t *testing.T) {
 		props.Judge(rt, ev, oracleC15, c, func() any { return sc })
 	})
 }
+
+const ruleC12 = "schedules owned by the harness: a holder (drc or do-approve, approve or compare, device given as absolute path / relative path / ipv6 path / name) is started against sshdev and parked before reading dialogue line p (before login, after login, during config read, between change commands, before save, after save); while it is parked 1-3 contenders of all front-end x spelling combinations run to completion; then the holder is released or SIGKILLed and a follower is started; plus a stress arm that starts 2-4 runs at once (OS-owned schedule); " +
+	"non-trivial = at least one contender ran while the holder was parked after lock acquisition (stress arm: at least one run was refused); distinct = hash of the schedule"
+
+func drawInvocation(rt *rapid.T, label string) Invocation {
+	inv := Invocation{Front: rapid.SampledFrom([]string{"drc", "do-approve"}).Draw(rt, label+"front"),
+		Verb: rapid.SampledFrom([]string{"approve", "compare"}).Draw(rt, label+"verb")}
+	if inv.Front == "drc" {
+		inv.Spell = rapid.SampledFrom([]string{"abs", "rel", "ipv6"}).Draw(rt, label+"spell")
+	}
+	return inv
+}
+
+func TestC12(t *testing.T) {
+	ev := evid.New("C12", ruleC12)
+	props.Finish(t, ev)
+	rapid.Check(t, func(rt *rapid.T) {
+		fam := rapid.SampledFrom([]string{"asa", "ios", "linux"}).Draw(rt, "family")
+		sc := genBase(rt, fam)
+		ls := &LockScenario{Family: fam, Device: sc.Device, Routes: sc.Routes, Target: sc.Target["router"]}
+		ls.Holder = drawInvocation(rt, "holder")
+		if ls.Holder.Spell == "ipv6" {
+			ls.Holder.Spell = "abs" // the holder must be able to run
+		}
+		ls.PausePos = rapid.SampledFrom([]int{0, 1, 2, 4, 6, 8, 10, 12, 13, 14, 15, 16, 17, 18, 19, 20, 22, 24, 27}).Draw(rt, "pausePos")
+		n := rapid.IntRange(1, 3).Draw(rt, "nContenders")
+		for i := 0; i < n; i++ {
+			ls.Contenders = append(ls.Contenders, drawInvocation(rt, "contender"))
+		}
+		ls.Kill = rapid.IntRange(0, 2).Draw(rt, "kill") == 0
+		ls.Follower = drawInvocation(rt, "follower")
+		if ls.Follower.Spell == "ipv6" {
+			ls.Follower.Spell = "rel"
+		}
+		if rapid.IntRange(0, 5).Draw(rt, "stress") == 0 {
+			ls.Stress = rapid.IntRange(2, 4).Draw(rt, "nStress")
+			for len(ls.Contenders) < 3 {
+				ls.Contenders = append(ls.Contenders, drawInvocation(rt, "contender"))
+			}
+			for i := range ls.Contenders {
+				if ls.Contenders[i].Spell == "ipv6" {
+					ls.Contenders[i].Spell = "abs"
+				}
+			}
+		}
+		c := ls.Case()
+		props.Judge(rt, ev, oracleC12, c, func() any { return ls })
+	})
+}
